@@ -7,7 +7,7 @@ LISTS_OK = ('forall(r, 0, len(self.model.{0}), forall(q, 0, len(self.model.{0}[r
 NEEDS_LB = ('exists(a, 0, len(' + OP + 'optimisation_options), ' + OP + 'optimisation_options[a][0] == Optimisation_options.LOADMAXBAL or '
             + OP + 'optimisation_options[a][0] == Optimisation_options.LOADSUMBAL or ' + OP + 'optimisation_options[a][0] == Optimisation_options.MINCOSTLSB)')
 GR_PRE = ['sizes_ok(self.model)', 'pairs_ok(self.model)', 'has_vars(self.model.pairs)', 'self.model.num_lecturers >= 1',
-          ('stability-line-not-covered-here', 'not ' + OP + 'extra_constraints[Extra_constraints.STAB]'),
+          ('stability-needs-two-sided-lists', 'implies(' + OP + 'extra_constraints[Extra_constraints.STAB], two_sided(self.model))'),
           # the two solution facts Model.get_results needs (established by lemma C01/reported-matching-valid from Solver.solve's postcondition and T3)
           ('optimal-solution-is-binary', 'implies(code() == 1, forall(i, 0, len(self.model.pairs), forall(c, 0, len(self.model.pairs[i]), solved(self.model.pairs[i][c].lp_var) == 0 or solved(self.model.pairs[i][c].lp_var) == 1)))'),
           ('optimal-solution-respects-the-quotas', 'implies(code() == 1, forall(s, 0, self.model.num_students, solsum(self.model.pairs[s]) <= 1)'
